@@ -1,5 +1,7 @@
 (* C01 model driver: one case per line (see props/C01/check.py: model_line), prints
-   "E <energy> V <values...> F <fx fy fz per atom...>" in hex floats *)
+   "E <energy> S <scale> V <values...> F <fx fy fz per atom...>" in hex floats.  Every case goes through the state
+   model of SuperposModel.v: init_var on the variables as configured, then the case's history of modifycvcs / cvcflags
+   events (possibly empty), then energy / values / forces of the state reached *)
 open Model
 open X_fops
 let pi = 3.14159265358979323846
@@ -92,13 +94,25 @@ let () =
           | "polarPhi" -> KPolarPhi
           | "rmsd" -> let n = ni () in let rf = List.init n (fun _ -> v3 ()) in KRmsd (rf, qopt_float)
           | s -> failwith ("kind " ^ s) in
+        (* a component as colvar::init sees it: coefficient, exponent, kind, groups, period (0 = not periodic) *)
         let cvc () =
           let c = nf () in let e = ni () in let k = kind () in
           let ng = ni () in let gs = List.init ng (fun _ -> group ()) in
-          { c_coeff = c; c_exp = z_of_int e; c_kind = k; c_groups = gs } in
+          let pd = nf () in
+          { sc_cvc = { c_coeff = c; c_exp = z_of_int e; c_kind = k; c_groups = gs }; sc_period = pd; sc_active = true } in
+        (* a variable as written in the configuration: width and components; the flags linear / homogeneous / periodic
+           and the period are computed by the model's init_var *)
         let var () =
-          let wd = nf () in let per = nb () in let pd = nf () in let n = ni () in let cs = List.init n (fun _ -> cvc ()) in
-          { cv_width = wd; cv_periodic = per; cv_period = pd; cv_cvcs = cs } in
+          let wd = nf () in let n = ni () in let cs = List.init n (fun _ -> cvc ()) in
+          (wd, cs) in
+        (* run-time events: M v i hascoeff coeff hasexp exp (modifycvcs) | F v n flags... (cvcflags) *)
+        let event () =
+          match next () with
+          | "M" -> let v = ni () in let i = ni () in
+            let hc = nb () in let c = nf () in let he = nb () in let e = ni () in
+            EvModify (nat_of_int v, nat_of_int i, (if hc then Some c else None), (if he then Some (z_of_int e) else None))
+          | "F" -> let v = ni () in let n = ni () in let fl = List.init n (fun _ -> nb ()) in EvFlags (nat_of_int v, fl)
+          | s -> failwith ("event " ^ s) in
         let bias () =
           match next () with
           | "harmonic" -> let k = nf () in let n = ni () in
@@ -124,10 +138,13 @@ let () =
           let cell = if nb () then Some (v3 ()) else None in
           let nv = ni () in let vars = List.init nv (fun _ -> var ()) in
           let nbs = ni () in let bs = List.init nbs (fun _ -> bias ()) in
-          let cf = { cf_cell = cell; cf_vars = vars; cf_biases = bs } in
-          let e = energy fops pi cf s in
-          let vs = var_values fops pi cf s in
-          let fs = forces fops pi cf s in
+          let nev = if !p < Array.length w then ni () else 0 in
+          let h = List.init nev (fun _ -> event ()) in
+          (* the state reached from init by the history; energy, values and forces are those of that state *)
+          let cf = effective cell (state_after fops vars h) bs in
+          let e = h_energy fops pi cell vars bs h s in
+          let vs = h_values fops pi cell vars bs h s in
+          let fs = h_forces fops pi cell vars bs h s in
           (* S = the largest single contribution entering any atomic force (conditioning of the sums) *)
           let sc = List.fold_left (fun m (_, ((a, b), c)) -> Float.max m (Float.max (Float.abs a) (Float.max (Float.abs b) (Float.abs c))))
                      0.0 (all_contribs fops pi cf s) in
